@@ -53,7 +53,10 @@ def flag_vectors():
 LONG = {"n": "nasm", "t": "strict", "s": "smart", "p": "print", "P": "printfile", "c": "chunk", "b": "breaks", "r": "return", "o": "object"}
 
 
-def argv_of(f, paths, rlast=False):
+RVARS = ("", "", "=3", "12", "rand")     # spellings of "run it": -r / --return, with LEN attached (-r=3 / --return=3, -r12), --rand (implies -r)
+
+
+def argv_of(f, paths, rlast=False, rvar=""):
     a = []
     spell = f.get("spell", "short")
 
@@ -81,8 +84,14 @@ def argv_of(f, paths, rlast=False):
         a += flag("c", str(f["c"]))
     if f["b"]:
         a += flag("b", str(f["b"]))
+    def rflag():
+        if rvar == "rand":
+            return ["--rand"]
+        if rvar == "":
+            return flag("r")
+        return ["-r" + rvar] if spell == "short" else ["--return=" + rvar.lstrip("=")]
     if f["r"] and not rlast:
-        a += flag("r")
+        a += rflag()
     if f["out"] == "P":
         a += flag("P", paths["P"])
     elif f["out"] in ("o", "olong"):
@@ -90,7 +99,7 @@ def argv_of(f, paths, rlast=False):
     elif f["out"] == "Pbad":
         a += flag("P", paths["bad"])
     if f["r"] and rlast:
-        a += flag("r")          # the last option: FILE (or nothing) follows it directly
+        a += rflag()            # the last option: FILE (or nothing) follows it directly
     return a
 
 
@@ -211,9 +220,10 @@ def run(prop, tier, replay=None):
             paths = {"P": os.path.join(d, "out%d.bin" % idx), "o": "obj%d" % idx, "olong": "obj%d" % idx + "x" * 150, "bad": os.path.join(d, "no-such-dir", "x.bin")}
             # -o gets a name relative to cwd = d: asmline refuses -o names that contain a '.', which a directory name may
             naming, rlast = NAMINGS[idx % 4], (idx // 4) % 2 == 1
+            rvar = RVARS[(idx // 8) % len(RVARS)]
             if replay:
-                naming, rlast = rp.get("naming", "abs"), rp.get("rlast", False)
-            argv = [exe] + argv_of(f, paths, rlast)
+                naming, rlast, rvar = rp.get("naming", "abs"), rp.get("rlast", False), rp.get("rvar", "")
+            argv = [exe] + argv_of(f, paths, rlast, rvar)
             text = PROGRAMS[prog][0]
             pre_target = paths["P"] if f["out"] == "P" else (os.path.join(d, paths[f["out"]] + ".bin") if f["out"] in ("o", "olong") else None)
             if pre_target and f.get("pre", "none") != "none":
@@ -234,7 +244,7 @@ def run(prop, tier, replay=None):
                 os.unlink(target)
             k = (opt["mov"], opt["swap"], opt["nobase"], f["c"], f["b"], prog)
             return {"id": "cli%d" % idx, "f": f, "prog": prog, "exit": exitc, "rows": rows, "count": count, "value": value, "file": fb,
-                    "junk": junk[:3], "lib": libres[refs[k].sid], "opt": opt, "argv": argv[1:], "naming": naming, "rlast": rlast}
+                    "junk": junk[:3], "lib": libres[refs[k].sid], "opt": opt, "argv": argv[1:], "naming": naming, "rlast": rlast, "rvar": rvar}
         with cf.ThreadPoolExecutor(max_workers=A.NCPU) as ex:
             events = list(ex.map(one, enumerate(cases)))
     finally:
@@ -293,7 +303,7 @@ def run(prop, tier, replay=None):
         seen[reason] += 1
         if seen[reason] > 3:
             continue
-        path = A.write_replay(prop, "%s-%s" % (e["id"], reason), {"property": prop, "reason": reason, "f": e["f"], "opt": e["opt"], "prog": e["prog"], "text": PROGRAMS[e["prog"]][0], "naming": e["naming"], "rlast": e["rlast"], "observed": e})
+        path = A.write_replay(prop, "%s-%s" % (e["id"], reason), {"property": prop, "reason": reason, "f": e["f"], "opt": e["opt"], "prog": e["prog"], "text": PROGRAMS[e["prog"]][0], "naming": e["naming"], "rlast": e["rlast"], "rvar": e["rvar"], "observed": e})
         print("VIOLATION property=%s replay=%s  (%s: asmline %s  program %s from %s)" % (prop, path, reason, " ".join(e["argv"]), e["prog"], e["f"]["src"]))
     for r, n in seen.items():
         if n > 3:
